@@ -1,4 +1,4 @@
-CONSTANTS N = 3 MaxKids = 2
+CONSTANTS N = 3 MaxKids = 2 WithOutside = TRUE KindShifts = {0, 1, 2, 3}
 SPECIFICATION Spec
 INVARIANT Emit
 CHECK_DEADLOCK FALSE
